@@ -214,7 +214,7 @@ type c18Hist struct {
 }
 
 func newC18Hist(s *verifh.Session) *c18Hist { return &c18Hist{s, map[string]int{}} }
-func (h *c18Hist) Count(k string)          { h.s.Count(k); h.m[k]++ }
+func (h *c18Hist) Count(k string)           { h.s.Count(k); h.m[k]++ }
 
 // need fails the lane as BROKEN (not as a violation) when a declared bucket was not reached:
 // bin/check classifies a failed lane whose output says "no tests to run" as infrastructure.
@@ -301,7 +301,7 @@ func TestVerif_C18_bind(t *testing.T) {
 		"parseResponseBody in-package on constructed responses: status (boundary set + uniform 100..599) x content type pool (json/xml/other/none, case and substring variants) x body pool (well/ill-formed json and xml, empty, null, type errors, binary) x targets {success, error, common error type} x 7 state checkers x prior resp.Err x body cached/unread x read failure x scripted unmarshaller outcome; observed: result/error slots, which object, returned error class, resp.Err, which unmarshaller ran, target contents vs reference decode; non-trivial = a target was selected")
 	r := s.Rand()
 	hist := newC18Hist(s)
-	n := verifh.N(6000, 200000)
+	n := verifh.N(20000, 300000)
 	for k := 0; k < n; k++ {
 		ck := c18Checkers[0]
 		if r.Intn(3) == 0 {
@@ -493,13 +493,27 @@ func TestVerif_C18_bind(t *testing.T) {
 		if selected {
 			hist.Count("selected")
 		}
-		if res {
+		// buckets the lane insists on come from the oracle's expectation, not from the implementation
+		if wantRes {
 			hist.Count("bound=success")
 		}
-		if errSlot != "-" {
-			hist.Count("bound=error" + errSlot)
+		if wantErr != "-" {
+			hist.Count("bound=error" + wantErr)
 		}
-		hist.Count("ret=" + strings.SplitN(c18ErrName(err), "(", 2)[0])
+		wantRet := "-"
+		switch {
+		case !selected:
+		case preErr != nil:
+			wantRet = c18ErrName(preErr)
+		case !(cached || readOK):
+			wantRet = "read"
+		case !unmOK:
+			wantRet = "unm"
+		}
+		hist.Count("ret=" + wantRet)
+		if c18ErrName(err) != wantRet {
+			ok = false
+		}
 		if hasHTTP && code == 204 {
 			hist.Count("204")
 		}
@@ -510,7 +524,7 @@ func TestVerif_C18_bind(t *testing.T) {
 				code, ck.name, ct, body, sT, eT, cE, c18ErrName(preErr), cached, readOK, script, impl))
 	}
 	// content-type → unmarshaller choice, on its own, over a wider random alphabet
-	for k := 0; k < verifh.N(1500, 50000); k++ {
+	for k := 0; k < verifh.N(3000, 50000); k++ {
 		ct := verifh.RandBytes(r, r.Intn(14), "jsonxmlJX/+;= ")
 		if r.Intn(4) == 0 {
 			ct = verifh.Pick(r, c18ContentTypes)
@@ -526,7 +540,7 @@ func TestVerif_C18_bind(t *testing.T) {
 		if c18CtClass(ct) == "xml" {
 			want = "xml"
 		}
-		hist.Count("ctlane=" + got)
+		hist.Count("ctlane=" + want)
 		s.Case("c18ct "+verifh.Hex(ct), got, got == want, "", true, fmt.Sprintf("ct=%q -> %s", ct, got))
 	}
 	s.Finish()
